@@ -899,8 +899,8 @@ def rule_dedicated_last(ctx, cfg, F):
                       and vec_id(pt["args"][0]) == Vk]
             if not pushes and V is not None:
                 # the list was created whole from the control-message data (`slice.to_vec()`): its creation is the one append
-                pushes = [db for (db, si_, node) in g.defs().get(V, []) if si_ is None and (strip_generics(callee_name(node)).endswith("::to_vec") or strip_generics(callee_name(node)).endswith("::collect")
-                                                                                             or strip_generics(node.get("callee") or "") in ("std::borrow::ToOwned::to_owned", "std::convert::From::from"))]
+                pushes = [r.block for r in trg.roots(V) if r.kind == "call" and r.block is not None and (
+                    strip_generics(r.id).endswith("::to_vec") or strip_generics(r.id).endswith("::collect") or strip_generics(r.id) in ("std::borrow::ToOwned::to_owned", "std::convert::From::from"))]
             disturb = [pb for pb, pt in g.calls() if strip_generics(callee_name(pt)) in ("std::vec::Vec::insert", "std::vec::Vec::remove", "std::vec::Vec::swap_remove", "core::slice::reverse", "core::slice::swap", "std::vec::Vec::drain", "std::vec::Vec::truncate")
                        and vec_id(pt["args"][0]) == Vk]
             in_loop = any(b in g.natural_loop(h) and any(p in g.natural_loop(h) for p in pushes) for h in g.loop_headers())
